@@ -156,6 +156,19 @@ def check_tf(l, T, report_ok, report_bad):
             report_ok(r, f"tf{l} row {r} = {lab}: orthonormal, harmonic, L_z^2={m*m}, parity/sign ok ({sum(1 for x in T[r] if x)} non-zero entries)")
 
 
+def _overlap_scope(prog, co):
+    """compute_overlap and the plain helper functions of its module it reaches (a shell-pair or primitive-pair loop
+    moved into a helper is still part of the assembly); not the kernel class, not the normalisation routines."""
+    keep = [co]
+    for h in prog.callees_closure([co]):
+        if h is co or h.module is not co.module or h.cls is not None or h.parent is not None:
+            continue
+        if h.name in ("factorial2", "gob_cart_normalization", "_compute_cart_shell_normalizations"):
+            continue
+        keep.append(h)
+    return keep
+
+
 def _is_bool_flag(func, name, depth=0):
     """A local that only ever holds True / False, an identity test of the basis arguments, or another such flag
     (the one-basis symmetry flag)."""
@@ -460,22 +473,25 @@ def run(ctx):
     # ------------------------------------------------------------------ R6
     ctx.rule("R6", "screening thresholds are literals <= 1e-15", "a larger threshold drops contributions above the documented screening level")
     nthr = 0
-    for n in co.own_nodes():
-        if isinstance(n, ast.Compare):
-            for e in [n.left] + n.comparators:
-                if isinstance(e, ast.Constant) and isinstance(e.value, float) and 0 < e.value < 1e-3:
-                    nthr += 1
-                    if e.value <= 1e-15:
-                        ctx.ok("R6", f"threshold {e.value:g}", f"{om.relpath}:{n.lineno}")
-                    else:
-                        ctx.violate("R6", f"screening threshold {e.value:g} exceeds the documented 1e-15", co, n)
+    scope = _overlap_scope(prog, co)
+    for fn_ in scope:
+        for n in fn_.own_nodes():
+            if isinstance(n, ast.Compare):
+                for e in [n.left] + n.comparators:
+                    if isinstance(e, ast.Constant) and isinstance(e.value, float) and 0 < e.value < 1e-3:
+                        nthr += 1
+                        if e.value <= 1e-15:
+                            ctx.ok("R6", f"threshold {e.value:g}", f"{om.relpath}:{n.lineno}")
+                        else:
+                            ctx.violate("R6", f"screening threshold {e.value:g} exceeds the documented 1e-15", fn_, n)
     ctx.floor("R6", nthr, 2, "screening comparisons")
     # the shell-pair bound must dominate every primitive pair: exp(-a0 a1 r^2 / (a0 + a1)) decreases with either
     # exponent, so the bound has to be taken at the smallest exponent of each shell (a min-reduction, not a position)
     pmc = prog.parents(co)
     nbound = 0
-    for n in co.own_nodes():
-        if isinstance(n, ast.If) and isinstance(n.test, ast.Compare) and any(isinstance(x, ast.For) for s_ in n.body for x in ast.walk(s_)):
+    for fn_ in scope:
+      for n in fn_.own_nodes():
+        if isinstance(n, ast.If) and isinstance(n.test, ast.Compare) and any(isinstance(x, (ast.For, ast.Call)) and (isinstance(x, ast.For) or any(h_ in scope for cs_ in fn_.calls if cs_.node is x for h_ in cs_.callees)) for s_ in n.body for x in ast.walk(s_)):
             names = [x for x in ast.walk(n.test) if isinstance(x, ast.Name)]
             seen, work = set(), list(names)
             while work:
@@ -483,9 +499,9 @@ def run(ctx):
                 if x.id in seen:
                     continue
                 seen.add(x.id)
-                d = single_def(co, x.id)
+                d = single_def(fn_, x.id)
                 if d is None:
-                    alld = [n_.value for n_ in co.own_nodes() if isinstance(n_, ast.Assign) and len(n_.targets) == 1 and isinstance(n_.targets[0], ast.Name) and n_.targets[0].id == x.id]
+                    alld = [n_.value for n_ in fn_.own_nodes() if isinstance(n_, ast.Assign) and len(n_.targets) == 1 and isinstance(n_.targets[0], ast.Name) and n_.targets[0].id == x.id]
                     d = alld[0] if alld else None  # several assignments: R7 reports the overwrite, R6 judges the first
                 if d is None:
                     continue
@@ -495,7 +511,7 @@ def run(ctx):
                     if is_min:
                         ctx.ok("R6", f"shell-pair bound uses `{x.id} = {src_of(d)}` (smallest exponent of the shell)", f"{om.relpath}:{d.lineno}")
                     else:
-                        ctx.violate("R6", f"the shell-pair screening bound takes `{x.id} = {src_of(d)}`, which is not the minimum over the shell's exponents: with primitives in another order the bound underestimates and a significant block is skipped", co, d)
+                        ctx.violate("R6", f"the shell-pair screening bound takes `{x.id} = {src_of(d)}`, which is not the minimum over the shell's exponents: with primitives in another order the bound underestimates and a significant block is skipped", fn_, d)
                 else:
                     work.extend(y for y in ast.walk(d) if isinstance(y, ast.Name))
     ctx.floor("R6", nbound, 2, "exponent reductions feeding the shell-pair bound")
@@ -642,6 +658,14 @@ def _check_overlap_tail(ctx, co, b0, b1):
 
 
 def _check_screened_quantity(ctx, co):
+    ctx.rule("R9", "the quantity compared with the screening threshold is the bare pair exponential", "pairs of tight primitives on nearby centres are dropped although their normalised contribution is far above 1e-15")
+    total = 0
+    for fn_ in _overlap_scope(ctx.prog, co):
+        total += _check_screened_quantity_in(ctx, fn_)
+    ctx.floor("R9", total, 2, "screening comparisons")
+
+
+def _check_screened_quantity_in(ctx, co):
     """R9: what is compared with the screening threshold is the bare pair exponential exp(-(a0 a1 / (a0 + a1)) R^2).
 
     That number bounds the normalised overlap of the primitive pair from above (the normalised s-s overlap is
@@ -650,7 +674,6 @@ def _check_screened_quantity(ctx, co):
     far above the threshold.  Decided on the defining expression of the tested name, evaluated on symbols."""
     from ..symarr import OPAQUE_ARGS, NotSymbolic, Sym, SymEval
 
-    ctx.rule("R9", "the quantity compared with the screening threshold is the bare pair exponential", "pairs of tight primitives on nearby centres are dropped although their normalised contribution is far above 1e-15")
     pm = ctx.prog.parents(co)
     ntest = 0
     for n in co.own_nodes():
@@ -721,7 +744,7 @@ def _check_screened_quantity(ctx, co):
             ctx.ok("R9", f"`{var}` compared with {n.comparators[0].value:g} is the bare exponential {value!r}", f"{co.module.relpath}:{n.lineno}")
         else:
             ctx.violate("R9", f"the quantity compared with the screening threshold is not the bare pair exponential: {why}; a factor folded into it changes which pairs are dropped (the bound on the normalised overlap no longer holds)", co, n, construct=f"screened quantity {var}: not a bare exponential")
-    ctx.floor("R9", ntest, 2, "screening comparisons")
+    return ntest
 
 
 def _deep_div(e):
@@ -840,15 +863,51 @@ def _check_translation_weights(ctx, co):
         elif v[1] != 0:
             problems.append((e, f"`{src_of(e)[:60]}` ({what}) changes by {v[1]} t when all centres are translated by t"))
 
+    scope = _overlap_scope(ctx.prog, co)
+    kernel_names = {"compute_overlap_1d"}
+    cur = [co]
+    depth = [0]
+
+    def enter_helpers(expr):
+        """Module-local helpers called in `expr`: analysed with their parameters bound to the weights of the arguments."""
+        for c in ast.walk(expr):
+            if not isinstance(c, ast.Call):
+                continue
+            h = next((g for cs_ in cur[-1].calls if cs_.node is c for g in cs_.callees if g in scope and g is not co), None)
+            if h is None or depth[0] > 3:
+                continue
+            from ..astutil import bind_call as _bind
+
+            bound, _extra, _ok = _bind(c, h)
+            vals = {p_: ev(a_) for p_, a_ in bound.items() if isinstance(a_, ast.AST)}
+            knames = {p_ for p_, a_ in bound.items() if isinstance(a_, ast.Name) and a_.id in kernel_names}
+            saved, saved_k = dict(env), set(kernel_names)
+            env.clear()
+            env.update(vals)
+            kernel_names.update(knames)
+            cur.append(h)
+            depth[0] += 1
+            visit(h.body)
+            depth[0] -= 1
+            cur.pop()
+            env.clear()
+            env.update(saved)
+            kernel_names.clear()
+            kernel_names.update(saved_k)
+
     def visit(stmts):
         for st in stmts:
+            if isinstance(st, (ast.Assign, ast.Expr, ast.Return)) and getattr(st, "value", None) is not None:
+                enter_helpers(st.value)
             if isinstance(st, ast.Assign) and len(st.targets) == 1 and isinstance(st.targets[0], ast.Name):
+                if isinstance(st.value, ast.Call) and src_of(st.value.func) in ("np.frompyfunc", "numpy.frompyfunc"):
+                    kernel_names.add(st.targets[0].id)
                 for c in ast.walk(st.value):
                     if isinstance(c, ast.Call):
                         fn = src_of(c.func)
                         if fn in ("np.exp", "math.exp", "numpy.exp"):
                             sink(c.args[0], "argument of exp")
-                        elif fn == "compute_overlap_1d":
+                        elif fn in kernel_names:
                             sink(c.args[0], "first centre argument of the 1-D kernel")
                             sink(c.args[1], "second centre argument of the 1-D kernel")
                 env[st.targets[0].id] = ev(st.value)
